@@ -1002,7 +1002,7 @@ class Index(IndexBase):
             if isinstance(key, slice):
                 if key == NULL_SLICE:
                     return slice(0, self.__len__())
-                if key.stop >= len(self):
+                if key.stop is not None and key.stop >= len(self):
                     # while a valid slice of positions, loc lookups do not permit over-stating boundaries
                     raise LocInvalid(f'Invalid loc: {key}')
                 key = slice_to_inclusive_slice(key)
